@@ -31,7 +31,7 @@ def make(rng, with_damage):
     for _ in range(n):
         k = rng.random()
         if k < 0.55:
-            kind = rng.choice(("defined", "defined", "unknown", "len255", "defmax"))
+            kind = rng.choice(("defined", "defined", "unknown", "len255", "defmax", "steered"))
             fr, p, _ = streams.rand_frame(rng, kind)
             if with_damage and rng.random() < 0.2:
                 # equal-length frames of one fixed-size type, later given the SAME bogus trailer
@@ -75,7 +75,9 @@ def drive(data, validate, parsed, labelmsm, mode, seekable=False):
 
     libs = common.lib_errors()
     cls = doubles.SeekableRecordingStream if seekable else doubles.RecordingStream
-    ds = cls(data, budget=6 * len(data) + 16)
+    # one run in three hands out bytearrays from read()/readline() (decided by the data, so all settings of one
+    # case see the same kind of stream)
+    ds = cls(data, budget=6 * len(data) + 16, rtype=bytearray if len(data) % 3 == 0 else None)
     rdr = RTCMReader(ds, validate=validate, parsed=parsed, labelmsm=labelmsm, quitonerror=mode,
                      errorhandler=(lambda e: None))
     if len(data) % 2 == 0:
@@ -139,13 +141,29 @@ def run_case(ctx, items, labelmsm, seekable=False):
                       f"({sum(1 for k, _, _ in items if k == 'badcrc')} with wrong checksum)", params)
         return
     for (raw, pos, m), (b, twin) in zip(ref, sent):
-        good = RTCMMessage(payload=twin[3:-3], labelmsm=labelmsm)
+        # the twin is built on the same buffer type the reader handed out (bytes, or bytearray when the stream returns
+        # bytearrays): the repr of a message names that type
+        ptype = bytearray if (m is not None and isinstance(m.payload, bytearray)) else bytes
+        good = RTCMMessage(payload=ptype(twin[3:-3]), labelmsm=labelmsm)
         if m is None or not eq(attrs(m), attrs(good)) or m.payload != good.payload or (
                 m.serialize() != good.serialize() or str(m) != str(good) or repr(m) != repr(good)):
             ctx.violation("validate0-decodes-differently", f"validate=0: frame {raw[:8].hex()}.. decodes differently "
                           f"from the same payload with a right checksum", params)
             return
         ctx.hit("validate0_twin_checked")
+        if len(twin) % 4 == 0:
+            # the right-checksum twin through the static parser with validation ON, handed over as a bytearray
+            try:
+                s1 = RTCMReader.parse(bytearray(twin), validate=1, labelmsm=labelmsm)
+            except Exception as e:
+                ctx.violation("static-validate1-rejects-good-frame", f"RTCMReader.parse(bytearray(valid frame), "
+                              f"validate=1) raised {type(e).__name__}: {e}", params)
+                return
+            if not eq(attrs(s1), attrs(good)):
+                ctx.violation("validate0-decodes-differently", "static parser, validate=1, bytearray input: decodes "
+                              "differently from the constructor", params)
+                return
+            ctx.hit("static_validate1_bytearray_checked")
         if raw != twin:
             try:
                 s = RTCMReader.parse(raw, validate=0, labelmsm=labelmsm)
